@@ -12,6 +12,10 @@ Ties
      through the real Structure/Molecule.add_implicit_hydrogens; the molecule before, the square-root /
      plane-normal witnesses and the molecule after go to Coq, where Model/Hadd.check re-runs the model
      (counts, new atoms, new bonds exactly; coordinates within 1e-9) by vm_compute.
+     Sessions: ONE live object driven through several calls with in-place edits in between (element, formal charge,
+     spin, hint, atom type, bond type/order, coordinates, hydrogens or bonds deleted, atoms added, a clone taken), a
+     call restricted to a few atoms followed by the whole-molecule call, every accessor read before the edits; each
+     call is judged and sent to Coq (Model/Hadd.check_steps) against the object's state AT THAT MOMENT.
 Oracle (implementation alone): deep snapshot before/after (nothing but new hydrogens), per-atom count against an
 independent valence calculation, each new H bonded once to its atom, distance = sum of covalent radii
 (relative 1e-4, see Props/C16.v C16_dist2), finite, pointing away from the centroid of the old neighbours,
@@ -1243,7 +1247,7 @@ def all_sessions(ctx):
     rng = ctx.rng
     items = [("session-fixed:" + nm, se) for nm, se in FIXED_SESSIONS]
     items += [("session-ring", ring_session(rng)) for _ in range(12 if not ctx.thorough else 120)]
-    items += [("session-random", gen_session(rng)) for _ in range(110 if not ctx.thorough else 1800)]
+    items += [("session-random", gen_session(rng)) for _ in range(110 if not ctx.thorough else 1200)]
     return items
 
 
@@ -1273,7 +1277,9 @@ def run(ctx, rep):
     import molli as ml
     rep.rule = ("a case = one molecule (random organic-like with exact dyadic coordinates, fixed small molecules, every bundled CDXML "
                 "fragment) driven through add_implicit_hydrogens; non-trivial when at least one hydrogen was added and the "
-                "molecule before/after was compared with the model inside Coq; distinct by molecule description")
+                "molecule before/after was compared with the model inside Coq; distinct by molecule description.  "
+                "A session (one live object: call, in-place edits, call again; or a call on a few atoms and then on the whole "
+                "molecule) is one case, non-trivial when it has at least two compared calls and hydrogens were added")
     rep.trusted += ["harness/c16.py: T-emitter (tables, default selection observed by running the routine on a lone hinted atom of "
                     "every element), fail-closed ast extractor of the count expression, generators, float -> exact rational encoding, "
                     "2^-60 square-root witnesses and observed mean_plane normals (both re-checked inside Coq)",
@@ -1285,9 +1291,16 @@ def run(ctx, rep):
                         "targets are distinct atoms; explicit targets outside groups 13-18 carry a hint (otherwise valence_electrons raises)",
                         "'pointing away' is judged when the neighbourhood is non-degenerate (centroid off the atom, two neighbours not "
                         "collinear, three neighbours not coplanar with the atom: |align| > 0.05) and no CoordinationCenter neighbour is skipped",
-                        "hints are integers in 0..4"]
+                        "hints are integers in 0..4",
+                        "sessions: the edits between the calls are the harness's own (attribute assignment on Atom/Bond, the coords "
+                        "setter, del_atom/del_bond/add_atom/append_bond, the copy constructor); a target whose CURRENT neighbourhood is "
+                        "degenerate (centroid within 0.2 A of the atom, two neighbours collinear with it, three collinear neighbours) "
+                        "is left out of the call, which then names its targets explicitly; a session stops at its first violating call"]
+    import time
+    t0 = time.time()
     tables, extraction, refusal = regen(ml)
     ok, out, where = vlib.build_props(ctx, rep, "C16")
+    t1 = time.time()
     rep.oblig("T/S-extraction", refusal is None)
     terms, owners, found = [], [], False
     items = all_specs(ctx, ml)
@@ -1356,8 +1369,11 @@ def run(ctx, rep):
     terms = [terms[j] for j in order]
     owners = [owners[j] for j in order]
     size = max(1, -(-len(terms) // nsh))
+    t2 = time.time()
     bad = vlib.run_shards(ctx, rep, "c16", HEADER, "check", terms, shard=size, timeout=900, case_type="case")
     rep.extra["shard_cases"] = len(terms)
+    rep.extra["compared_calls"] = sum(weight)
+    rep.extra["wall_s"] = {"tables+props": round(t1 - t0, 1), "drive+oracle": round(t2 - t1, 1), "shards": round(time.time() - t2, 1), "shard_files": nsh}
     if bad is None:
         vlib.broken_obligation(rep, "corr_c16", "a correspondence shard did not compile: " + str(rep.extra.get("shard_errors", ""))[-800:], found)
     elif bad:
